@@ -10,9 +10,8 @@ import json
 import random
 from concurrent.futures import ThreadPoolExecutor
 
-from vlib.comp import (Component, corrupt_self_test, record_traces, replay_edges, replay_file, trace_stats,
-                       validate_traces)
-from vlib.memports import MEMTYPES, Collector, accepts, addr_bits, mem_ctor, model_check_variant, tlc_workers
+from vlib.comp import Component, corrupt_self_test, record_traces, replay_file, trace_stats, validate_traces
+from vlib.memports import MEMTYPES, Collector, accepts, addr_bits, mem_ctor, model_check_variant, replay_edges_scc, tlc_workers
 
 
 def full_cfg(cfg, mt=None):
@@ -218,7 +217,7 @@ def run(rep):
         if not es:
             continue
         before = rep.coverage.get("replay_cycles", 0)
-        replay_edges(COMPS[mt], es, inits, col, rep.pid, max_len=60)
+        replay_edges_scc(COMPS[mt], es, inits, col)
         rep.coverage.setdefault("edges_replayed_per_memory_type", {})[mt] = len(es)
         nrep += len(es)
         for v in col.held:
